@@ -340,6 +340,66 @@ pub fn bounded_case(text: &str, tts: &[TT], cap: usize, twoval: bool) -> Vec<(St
     out
 }
 
+/// one long search; the expected models follow from the construction named in `name`
+pub fn long_case(text: &str, n: usize, name: &str, h: usize, budget: u64, modes: &[bool], st: &mut St) -> Vec<(String, String)> {
+    let mut out = vec![];
+    let parser = AdfParser::default();
+    if parser.parse()(text).is_err() {
+        return vec![("parse".into(), "well-formed input rejected".into())];
+    }
+    let (heu, hname) = builtin(h);
+    for twoval in modes.iter().copied() {
+        let label = format!("long.{}({})", if twoval { "two_val_nogood_channel" } else { "stable_nogood_channel" }, hname);
+        adf_bdd::verif::set_budget(Some(budget));
+        let res = guard(|| {
+            let mut adf = Adf::from_parser(&parser);
+            let (s, r) = crossbeam_channel::unbounded();
+            if twoval {
+                adf.two_val_nogood_channel(heu, s);
+            } else {
+                adf.stable_nogood_channel(heu, s);
+            }
+            let items: Vec<Vec<Term>> = r.try_iter().collect();
+            (items, matches!(r.try_recv(), Err(crossbeam_channel::TryRecvError::Disconnected)))
+        });
+        adf_bdd::verif::set_budget(None);
+        st.calls += 1;
+        match res {
+            Err(m) => {
+                let kind = if m.contains(adf_bdd::verif::BUDGET_EXHAUSTED) { "nontermination" } else { "panic" };
+                out.push((format!("{}:{}", label, kind), if kind == "panic" { m } else { format!("search did not end within {} loop steps", budget) }));
+            }
+            Ok((items, closed)) => {
+                if !closed {
+                    out.push((format!("{}:sender-not-dropped", label), "channel still open after return".into()));
+                }
+                let got: Vec<Interp> = items.iter().map(|m| conv(m)).collect();
+                let set: BTreeSet<Interp> = got.iter().cloned().collect();
+                if set.len() != got.len() {
+                    out.push((format!("{}:duplicate", label), format!("{} models delivered, {} distinct", got.len(), set.len())));
+                }
+                let ok = if name.contains("self-supporting") {
+                    if twoval {
+                        set.len() == 1usize << n && set.iter().all(|m| m.len() == n && m.iter().all(|x| *x != U))
+                    } else {
+                        set.len() == 1 && set.iter().next().map(|m| m.iter().all(|x| *x == F)).unwrap_or(false)
+                    }
+                } else if n % 2 == 1 {
+                    set.is_empty()
+                } else {
+                    let a: Interp = (0..n).map(|i| (i % 2) as u8).collect();
+                    let b: Interp = (0..n).map(|i| ((i + 1) % 2) as u8).collect();
+                    set == [a, b].into_iter().collect::<BTreeSet<_>>()
+                };
+                if !ok {
+                    out.push((format!("{}:wrong-models", label), format!("{} distinct models delivered; the construction has {}", set.len(), if name.contains("self-supporting") { if twoval { format!("all 2^{} interpretations as two-valued models", n) } else { "exactly the all-false stable model".to_string() } } else if n % 2 == 1 { "no model".to_string() } else { "exactly the two alternating models".to_string() })));
+                }
+            }
+        }
+    }
+    out
+}
+
 /// class of the first `len` heuristic calls of a seed: (next_u64 mod 6, gen_bool) per call - mod 6 fixes the
 /// position chosen for every list length <= 3
 fn seed_class(k: u64, len: usize) -> Vec<u8> {
@@ -378,6 +438,41 @@ pub fn run_c05(run: &Run) {
     run.assume("a well-behaved custom heuristic proposes an undecided statement with a truth value whenever one exists");
     let quick = run.quick();
 
+    // ---- (0) long searches and many undecided statements, started now on their own threads and joined at the end
+    // (oracles by construction, not by brute force): k self-supporting statements - all 2^k interpretations are
+    // two-valued models, the all-false one is the only stable one; negation cycles ac(s_i, neg(s_{i+1})) of even length
+    // have exactly the two alternating models (both stable), of odd length none - with 64 and more statements left
+    // undecided by the grounded interpretation
+    let mut long_jobs: Vec<(String, usize, usize, Vec<bool>, std::thread::JoinHandle<Vec<(String, String)>>)> = vec![];
+    {
+        let mut cases: Vec<(String, usize, bool, usize, Vec<bool>)> = vec![]; // name, n, selfloops, heuristic, modes
+        for h in 0..3 {
+            cases.push(("10 self-supporting statements".into(), 10, true, h, vec![true, false]));
+            for n in [64usize, 65, 66, 100, 128, 257] {
+                cases.push((format!("negation cycle of length {}", n), n, false, h, vec![true, false]));
+            }
+        }
+        // more than 1024 learned nogoods of one size need 11 free statements: one heuristic, one mode (about 20 s)
+        cases.push(("11 self-supporting statements".into(), 11, true, 0, vec![true]));
+        if !quick {
+            for h in 0..3 {
+                cases.push(("11 self-supporting statements".into(), 11, true, h, vec![true, false]));
+            }
+            cases.push(("12 self-supporting statements".into(), 12, true, 0, vec![true]));
+        }
+        for (name, n, selfloops, h, modes) in cases {
+            let (nm, md) = (name.clone(), modes.clone());
+            let handle = std::thread::spawn(move || {
+                let labels: Vec<String> = (0..n).map(|i| format!("{}{}", if selfloops { "q" } else { "c" }, i)).collect();
+                let conds: Vec<Fm> = if selfloops { (0..n).map(Fm::Atom).collect() } else { (0..n).map(|i| Fm::not(Fm::Atom((i + 1) % n))).collect() };
+                let l = crate::large::LargeAdf { labels: labels.clone(), written: labels, conds, shape: "long" };
+                let mut st = St::default();
+                long_case(&l.text(None, ("", "", "")), n, &nm, h, (400 * (1u64 << n.min(20))).max(2_000_000), &md, &mut st)
+            });
+            long_jobs.push((name, n, h, modes, handle));
+        }
+    }
+
     // ---- (1) choice sequences
     let mut plan: Vec<(Source, usize)> = vec![
         (Source::FamCompact(fam_a(1)), usize::MAX),
@@ -385,8 +480,17 @@ pub fn run_c05(run: &Run) {
         (Source::FamCompact(fam_f(3, 1)), usize::MAX),
     ];
     if quick {
-        plan.push((Source::FamCompact(fam_f(3, 2)), 2));
-        plan.push((Source::FamCompact(fam_f(4, 1)), 2));
+        // one residue class modulo 2 each (selected by the seed), complete at two deviations
+        let mut f32 = fam_f(3, 2);
+        f32.first = run.seed % 2;
+        f32.step = 2;
+        f32.name = format!("F(3,2) class {} mod 2", run.seed % 2);
+        let mut f41 = fam_f(4, 1);
+        f41.first = (run.seed / 2) % 2;
+        f41.step = 2;
+        f41.name = format!("F(4,1) class {} mod 2", (run.seed / 2) % 2);
+        plan.push((Source::FamCompact(f32), 2));
+        plan.push((Source::FamCompact(f41), 2));
     } else {
         plan.push((Source::FamCompact(fam_f(3, 2)), usize::MAX));
         plan.push((Source::FamCompact(fam_s(run.seed)), usize::MAX));
@@ -430,7 +534,11 @@ pub fn run_c05(run: &Run) {
     let mut builtin_sources = standard_sources(run, false);
     if quick {
         // the residue class of A(3) is left to the thorough tier (which runs all of A(3))
-        builtin_sources.retain(|s| !s.name().starts_with("S_") && !s.name().starts_with("F(4,2) class"));
+        builtin_sources.retain(|s| !s.name().starts_with("S_") && !s.name().starts_with("F(4,2) class") && !matches!(s, Source::Ring(..) | Source::Sparse(..)));
+        builtin_sources.push(Source::Ring(6, run.seed % 64, 64));
+        builtin_sources.push(Source::Ring(7, run.seed % 2048, 2048));
+        builtin_sources.push(Source::Ring(8, run.seed % 32768, 32768));
+        builtin_sources.push(Source::Sparse(run.seed * 1000, 48));
     }
     for src in builtin_sources {
         let name = format!("built-in heuristics x 3 entry points x native/hybrid: {}", src.name());
@@ -523,7 +631,18 @@ pub fn run_c05(run: &Run) {
         (Source::FamCompact(fam_a(1)), &seeds_small),
         (Source::FamCompact(fam_a(2)), &seeds_small),
         (Source::FamCompact(fam_f(3, 1)), &seeds_small),
-        (Source::FamCompact(fam_f(3, 2)), &seeds_big),
+        (
+            if quick {
+                let mut f = fam_f(3, 2);
+                f.first = (run.seed / 4) % 2;
+                f.step = 2;
+                f.name = format!("F(3,2) class {} mod 2", (run.seed / 4) % 2);
+                Source::FamCompact(f)
+            } else {
+                Source::FamCompact(fam_f(3, 2))
+            },
+            &seeds_big,
+        ),
     ];
     for (src, seeds) in rand_plan {
         let ns = seeds.len() as u64;
@@ -551,6 +670,25 @@ pub fn run_c05(run: &Run) {
             run.add_outcomes(st.outcomes);
         }
     }
+    // join the long searches
+    {
+        let t0 = std::time::Instant::now();
+        let total = long_jobs.len() as u64;
+        let mut runs = 0u64;
+        for (name, _n, h, modes, handle) in long_jobs {
+            runs += modes.len() as u64;
+            match handle.join() {
+                Ok(found) => {
+                    for (kind, msg) in found {
+                        run.violation(&kind, format!("{} on {}", msg, name), json!({"type": "long", "name": name, "heuristic": h, "modes": modes}));
+                    }
+                }
+                Err(_) => run.violation("long:panic", format!("the search thread for {} died", name), json!({"type": "long", "name": name, "heuristic": h, "modes": modes})),
+            }
+        }
+        run.add_counts(total, runs, runs, runs);
+        run.add_family(FamilyCov { name: format!("long searches (10-11 self-supporting statements: up to 2048 models, > 1024 learned nogoods of one size) and negation cycles with 64-257 undecided statements: {} instances on their own threads", total), size: total, done: total, exhaustive: true, note: format!("joined after {:.1}s of extra waiting", t0.elapsed().as_secs_f64()) });
+    }
     // CLI clause: --stmng / --twoval with every heuristic value (and none)
     crate::c15::cli_slice(run, &[1 << 8, 1 << 9], &[None, Some(0), Some(1), Some(2), Some(3)]);
     run.extra("max_loop_steps_observed", json!(max_steps));
@@ -567,6 +705,18 @@ pub fn replay(c: &Value) -> Vec<(String, String)> {
     let text = c["text"].as_str().unwrap_or_default().to_string();
     let tts: Vec<TT> = c["tts"].as_array().map(|a| a.iter().map(|x| x.as_u64().unwrap_or(0) as TT).collect()).unwrap_or_default();
     let mut st = St::default();
+    if c["type"] == "long" {
+        let name = c["name"].as_str().unwrap_or("").to_string();
+        let n: usize = name.split(|ch: char| !ch.is_ascii_digit()).filter(|x| !x.is_empty()).next().and_then(|x| x.parse().ok()).unwrap_or(11);
+        let (labels, conds): (Vec<String>, Vec<Fm>) = if name.contains("self-supporting") {
+            ((0..n).map(|i| format!("q{}", i)).collect(), (0..n).map(Fm::Atom).collect())
+        } else {
+            ((0..n).map(|i| format!("c{}", i)).collect(), (0..n).map(|i| Fm::not(Fm::Atom((i + 1) % n))).collect())
+        };
+        let l = crate::large::LargeAdf { labels: labels.clone(), written: labels, conds, shape: "long" };
+        let modes: Vec<bool> = c["modes"].as_array().map(|a| a.iter().map(|x| x.as_bool().unwrap_or(true)).collect()).unwrap_or_else(|| vec![true, false]);
+        return long_case(&l.text(None, ("", "", "")), n, &name, c["heuristic"].as_u64().unwrap_or(0) as usize, (400 * (1u64 << n.min(20))).max(2_000_000), &modes, &mut st);
+    }
     if c["type"] == "bounded" {
         return bounded_case(&text, &tts, c["cap"].as_u64().unwrap_or(0) as usize, c["twoval"].as_bool().unwrap_or(false));
     }
